@@ -37,6 +37,8 @@ func (m *c08Mon) Step(w *sessmc.World, e *sessmc.Event, obs []sessmc.Obs) (strin
 		switch o.K {
 		case "panic":
 			return "C08/R5-panic", o.Txt
+		case "second-connect-accepted":
+			return "C08/R5-second-connection-accepted state=" + w.VS.Snapshot().State, "a connection attempt while the session is connected was accepted: the earlier connection's outbound channel is abandoned open and its logged-on period never ends"
 		case "OnLogon":
 			m.onLogon, m.appOn, m.periodEnded = true, true, false
 		case "OnLogout":
@@ -95,7 +97,7 @@ func c08Alphabet() []*sessmc.Event {
 	rejLogon := sessmc.EvIn("A", 0, false, fixscan.Field{58, "REJECT"})
 	rejLogon.Name = "in(A@T,app-refuses)"
 	return []*sessmc.Event{
-		sessmc.EvConnect(), sessmc.EvDisconnect(),
+		sessmc.EvConnect(), sessmc.EvDisconnect(), sessmc.EvSecondConnect(),
 		sessmc.EvLogon(0, 0, ""), sessmc.EvLogon(-1, 0, ""), sessmc.EvLogon(2, 0, ""), wrongComp, rejLogon,
 		sessmc.EvIn("D", 0, false), sessmc.EvIn("D", 1, false), sessmc.EvIn("0", 0, false), sessmc.EvIn("5", 0, false),
 		sessmc.EvIn("2", 0, false, fixscan.Field{7, "1"}, fixscan.Field{16, "0"}),
@@ -132,10 +134,15 @@ func runC08(c *core.Ctx) {
 					if c.Quick() && bs == "FIX.4.4" && (rl || rd) {
 						continue
 					}
-					cfg := sessmc.Config{Initiator: ini, BeginString: bs, ResetOnLogout: rl, ResetOnDisconnect: rd}
-					sp := variantDefs["C08"](cfg)
-					sp.depth, sp.relative, sp.conform = depth, true, 40
-					runSearch(c, sp)
+					for _, np := range []bool{false, true} {
+						if np && (rl || rd || bs == "FIX.4.4") {
+							continue
+						}
+						cfg := sessmc.Config{Initiator: ini, BeginString: bs, ResetOnLogout: rl, ResetOnDisconnect: rd, NoPersist: np}
+						sp := variantDefs["C08"](cfg)
+						sp.depth, sp.relative, sp.conform = depth, true, 40
+						runSearch(c, sp)
+					}
 				}
 			}
 		}
